@@ -23,9 +23,10 @@ BOUNDS = (
     "1e-9 for the constant-image clause (bins >= 0.2 px wide), monotonicity slack 1e-10*total, history "
     "comparisons rtol 1e-12 per rescaling (<= 6 rescalings: 1e-11), interpolator knots rtol 1e-9.  "
     "Histories: ALL sequences of length <= 5 over {normalize('max'), normalize('sum'), unnormalize, first "
-    "read of profile, first read of profile_error, first read of data_profile} (each read at most once; "
-    "4611 sequences for RadialProfile, 1456 without data_profile for CurveOfGrowth) on 2 (quick) / 4 scenes "
-    "(quick: CurveOfGrowth and the 2nd RadialProfile scene use length <= 4)."
+    "read of profile, first read of profile_error, first read of data_profile} that contain at least one normalize "
+    "(each read at most once; 4366 sequences for RadialProfile, 2050 without data_profile for CurveOfGrowth), each "
+    "on a fresh object, on 2 scenes per class (quick; the 2nd CurveOfGrowth scene with length <= 4) / 4+3 scenes "
+    "(thorough); after every sequence all arrays are read, then unnormalize is called and all arrays are read again."
 )
 RULE = (
     "Photometry cases are the Cartesian product scene x centre x radii x method x input variant (key = that "
@@ -661,8 +662,8 @@ def run_history(cls, scene_name, seq):
 
 
 def part_histories(ctx):
-    plan = [('RadialProfile', 'A', 5), ('RadialProfile', 'B', 5 if ctx.thorough else 4),
-            ('CurveOfGrowth', 'A', 5 if ctx.thorough else 4), ('CurveOfGrowth', 'D', 5 if ctx.thorough else 4)]
+    plan = [('RadialProfile', 'A', 5), ('RadialProfile', 'B', 5),
+            ('CurveOfGrowth', 'A', 5), ('CurveOfGrowth', 'D', 5 if ctx.thorough else 4)]
     if ctx.thorough:
         plan += [('RadialProfile', 'C', 5), ('RadialProfile', 'D', 5), ('CurveOfGrowth', 'C', 5)]
     for cls, scn, maxlen in plan:
